@@ -27,7 +27,7 @@ def _fs(st):
 
 def register(reg):
     reg.classdecl("FileHandle", {"path": STR})
-    reg.classdecl("CacheManager", {"__cache_dir": STR, "__cache_ext": STR, "__cache_refs": Dict(STR, STR)})
+    reg.classdecl("CacheManager", {"_CacheManager__cache_dir": STR, "_CacheManager__cache_ext": STR, "_CacheManager__cache_refs": Dict(STR, STR)})
     reg.specfun("DUMPS", [VAL], STR)
     reg.specfun("LOADS", [STR], VAL)
     reg.specfun("PARSEABLE", [STR], BOOL)
@@ -110,7 +110,7 @@ def register(reg):
         a, b = eng.coerce(args[0], STR, st), eng.coerce(args[1], STR, st)
         return mk_str(eng.uf("PATHJOIN", [S, S], S)(a.t, b.t))
 
-    ENTRY = "PATHJOIN(self.__cache_dir, key + '.' + self.__cache_ext)"
+    ENTRY = "PATHJOIN(self._CacheManager__cache_dir, key + '.' + self._CacheManager__cache_ext)"
     UNTOUCHED = "fs_exists({E}) == old(fs_exists({E})) and fs_content({E}) == old(fs_content({E}))".format(E=ENTRY)
     reg.contract(
         F, "CacheManager.write_cache",
@@ -131,16 +131,16 @@ def register(reg):
     reg.contract(
         F, "CacheManager.load_cache",
         params={"self": Obj("CacheManager"), "key": STR}, returns=VAL,
-        requires=["key in self.__cache_refs"],
-        raises={"ValueError": "fs_exists(self.__cache_refs[key]) and not PARSEABLE(fs_content(self.__cache_refs[key]))",
-                "FileNotFoundError": "not fs_exists(self.__cache_refs[key])"},
-        ensures=["result == LOADS(fs_content(self.__cache_refs[key]))"],
+        requires=["key in self._CacheManager__cache_refs"],
+        raises={"ValueError": "fs_exists(self._CacheManager__cache_refs[key]) and not PARSEABLE(fs_content(self._CacheManager__cache_refs[key]))",
+                "FileNotFoundError": "not fs_exists(self._CacheManager__cache_refs[key])"},
+        ensures=["result == LOADS(fs_content(self._CacheManager__cache_refs[key]))"],
         modifies=["*O.FileHandle.path"],
         props=["C12"])
 
     reg.contract(
         F, "CacheManager.is_cached",
         params={"self": Obj("CacheManager"), "key": STR}, returns=BOOL, pure=False,
-        ensures=["result == (key in self.__cache_refs)"],
+        ensures=["result == (key in self._CacheManager__cache_refs)"],
         modifies=[],
         props=["C12"])
